@@ -79,11 +79,11 @@ theorem narrow_div_widen (a b : Nat) : narrow (div D .RNE (widen a) (widen b)) =
     rw [e, roundS_scale D .RNE _ _ _ (2 ^ 925) hb0 (Nat.two_pow_pos _)]
     exact narrow_round_quot _ _ hfa hfb hb0 _
 
-/-- the fold of a FLOAT division (Python's `/`, or `_div_by_zero` after the ZeroDivisionError) is the binary32 quotient -/
-theorem fpDiv_F (rm : RM) (a b : Nat) : fpDiv F rm a b = div F .RNE a b := by
+/-- the fold of a FLOAT division (Python's `/`, or `_div_by_zero` after the ZeroDivisionError) is the binary64 quotient of the
+widened operands packed as binary32 -/
+theorem fpDiv_F_narrow (rm : RM) (a b : Nat) : fpDiv F rm a b = narrow (div D .RNE (widen a) (widen b)) := by
   have hl : ∀ x, lift F x = widen x := fun x => by unfold lift; rw [if_pos rfl]
   have hlow : ∀ d, lower F d = narrow d := fun d => by unfold lower; rw [if_pos rfl]
-  rw [← narrow_div_widen a b]
   unfold fpDiv pyDiv; rw [hl, hl]
   cases hz : isZero D (widen b)
   · simp only [Bool.false_eq_true, if_false, hlow]
@@ -91,5 +91,9 @@ theorem fpDiv_F (rm : RM) (a b : Nat) : fpDiv F rm a b = div F .RNE a b := by
     cases hn : isNaN D (widen a)
     · rw [divByZero_spec .RNE _ _ hz hn]
     · rw [div_nan_left _ _ _ hn]; unfold divByZero; simp [hn]
+
+/-- … which is the binary32 quotient -/
+theorem fpDiv_F (rm : RM) (a b : Nat) : fpDiv F rm a b = div F .RNE a b := by
+  rw [fpDiv_F_narrow, narrow_div_widen]
 
 end Claripy.FP.Fold
